@@ -259,7 +259,7 @@ def build_harness(pid, h, log):
     ov, rep = overlay_for(pid, h.get("overlay_tags", ()))
     binp = os.path.join(BUILD, "bin", "%s_%s.test" % (pid, h["pkg"].replace("/", "_")))
     os.makedirs(os.path.dirname(binp), exist_ok=True)
-    cmd = [GO, "test", "-c", "-tags", "verif", "-vet=off", "-overlay", ov, "-o", binp]
+    cmd = [GO, "test", "-c", "-trimpath", "-tags", "verif", "-vet=off", "-overlay", ov, "-o", binp]
     if h.get("race"):
         cmd.append("-race")
     cmd.append("./" + h["pkg"])
@@ -318,7 +318,7 @@ def run_check(pid, tier="quick", seed=None, replay=None):
         tr_ok = run_translators(spec["translators"], log)
         if not tr_ok:
             problems.append(dict(layer="L2-translator", what="translator failed: " + ",".join(spec["translators"])))
-        make_ok = coq_make(log)
+        make_ok = coq_make(log, targets=[os.path.join("theories", spec["props_file"][:-2] + ".vo")])
         ci = analyse_cone(spec["props_file"])
         pa_ok, closed, axioms = print_assumptions(spec["props_file"], log)
     if ci["missing"]:
